@@ -86,6 +86,7 @@ func genC02(c *lp.Ctx) {
 
 // genC03: Complete mode is an exact ordered map for arbitrary queries.
 func genC03(c *lp.Ctx) {
+	bigDirectComplete(c)
 	n := c.Pick(250, 800)
 	size := c.Pick(200, 1000)
 	for it := 0; it < n; it++ {
@@ -572,6 +573,15 @@ func genC18(c *lp.Ctx) {
 		}
 		if got := c.Do("trie.stat"); got != fresh {
 			cs.viol(c, "Stat unchanged by a marshal round trip", "trie.stat", fresh, got)
+		}
+		if it%4 == 1 {
+			// HISTORY: the caller edits the report it was handed (rows, counts) and asks again: the report is the
+			// caller's own copy, a later Stat is unaffected
+			c.Do("trie.stat-scribble")
+			if got := c.Do("trie.stat"); got != fresh {
+				cs.viol(c, "Stat is unaffected by a caller that edits an earlier report in place", "trie.stat-scribble; trie.stat", fresh, got)
+			}
+			c.Hit("history:stat,edit-the-report,stat")
 		}
 		if it%4 == 0 {
 			// HISTORY: Stat was asked, then the instance is emptied: it must report the empty trie
